@@ -1040,7 +1040,14 @@ func (a *allowerContext) newMembershipAllower(authEvents AuthEventProvider, even
 	}
 	// If this event comes from a third_party_invite, we need to check it against the original event.
 	if m.newMember.ThirdPartyInvite != nil {
-		token := m.newMember.ThirdPartyInvite.Signed.Token
+		// An invite without a token is rejected here for the same reason for which
+		// accumulateStateNeeded refuses it: no m.room.third_party_invite event is
+		// named as needed state for it, so none must be consulted.
+		token, tokErr := thirdPartyInviteToken(m.newMember.ThirdPartyInvite)
+		if tokErr != nil {
+			err = errorf("could not get third-party token: %s", tokErr)
+			return
+		}
 		if m.thirdPartyInvite, err = NewThirdPartyInviteContentFromAuthEvents(authEvents, token); err != nil {
 			return
 		}
